@@ -269,12 +269,15 @@ func (r *caseRun) buildCollection(name string) *nject.Collection {
 	// The same list is put together by different routes (C13 says they are equivalent): flat, nested, or appended to a
 	// base collection from which a second, unrelated collection is appended as well (aliasing of the base's slice).
 	var c *nject.Collection
-	route := uint64(r.c.Seed) % 5
+	route := uint64(r.c.Seed) % 6
 	k := 0
 	if len(items) > 0 {
-		k = int((uint64(r.c.Seed) / 5) % uint64(len(items)+1))
+		k = int((uint64(r.c.Seed) / 6) % uint64(len(items)+1))
 	}
 	switch route {
+	case 5:
+		// an unnamed sub-sequence: its providers have an empty origin until they are renamed
+		c = nject.Sequence(name, append([]any{nject.Sequence("", items[:k]...)}, items[k:]...)...)
 	case 3:
 		c = nject.Sequence(name, append([]any{nject.Sequence(name, items[:k]...)}, items[k:]...)...)
 	case 4:
